@@ -439,6 +439,7 @@ namespace vw
             } while (g.mesh_nx * g.mesh_ny > max_nodes);
             g.mesh_seed = r.next() % 1000000;
             g.mesh_holes = static_cast<int>(r.range(0, 2));
+            g.mesh_extra = r.chance(0.25) ? static_cast<int>(r.range(1, 2)) : 0;
         }
         g.share_grid = r.chance(0.4) ? 1 : 0;
         g.reuse_input = r.chance(0.5) ? 1 : 0;
